@@ -116,8 +116,8 @@ def pair_body(case, rec):
 def matrix_cases():
     return st.fixed_dictionaries({
         'kind': st.just('matrix'), 'spec': pairs.pair_specs(), 'ops': gens.histories(max_ops=25, allow=('t', 'x', 'tx', 'unif')),
-        'path': st.sampled_from(['inline', 'serial', 'pool', 'col']), 'workers': st.integers(1, 4),
-        'rect': st.sampled_from(['square', 'rows', 'cols', 'both']), 'cut': st.integers(0, 10**6), 'exact': st.booleans(),
+        'path': st.sampled_from(['inline', 'serial', 'pool', 'pool', 'col']), 'workers': st.one_of(st.integers(1, 4), st.integers(5, 16)),
+        'rect': st.sampled_from(['square', 'rows', 'cols', 'both', 'tall', 'wide']), 'cut': st.integers(0, 10**6), 'exact': st.booleans(),
     })
 
 
@@ -152,6 +152,10 @@ def matrix_body(case, rec):
             test = leaves[: max(10, n - 1 - case['cut'] % 5)]
         if case['rect'] in ('cols', 'both') and n > 12:
             trial = leaves[case['cut'] % 3:]
+        if case['rect'] == 'tall' and n >= 20:
+            test, trial = list(leaves), leaves[case['cut'] % 3::max(2, n // 6)][:7]
+        if case['rect'] == 'wide' and n >= 20:
+            trial, test = list(leaves), leaves[case['cut'] % 3::max(2, n // 6)][:7]
         if len(test) * len(trial) < 100:
             path = 'inline'
     exact = case['exact'] and not g.circle
